@@ -116,11 +116,14 @@ type State struct {
 	nobj    int
 	trace   []string // block trace for diagnostics
 	dead    bool
+	guards  map[string]int
+	proved  map[string]bool
+	guardCount *map[string]int // shared by all paths of one function
 }
 
 func (st *State) clone() *State {
 	n := &State{objs: make(map[int]*Obj, len(st.objs)), heaps: make(map[string]string, len(st.heaps)),
-		heapSort: st.heapSort, alloc: st.alloc, nfresh: st.nfresh, nobj: st.nobj}
+		heapSort: st.heapSort, alloc: st.alloc, nfresh: st.nfresh, nobj: st.nobj, guardCount: st.guardCount}
 	for _, f := range st.frames {
 		n.frames = append(n.frames, f.clone())
 	}
@@ -129,6 +132,12 @@ func (st *State) clone() *State {
 	}
 	for k, v := range st.heaps {
 		n.heaps[k] = v
+	}
+	if st.proved != nil {
+		n.proved = make(map[string]bool, len(st.proved))
+		for k := range st.proved {
+			n.proved[k] = true
+		}
 	}
 	n.sb = &strings.Builder{}
 	n.sb.WriteString(st.sb.String())
@@ -175,6 +184,15 @@ func (st *State) assume(term string) {
 }
 
 func (st *State) check(ob, term, note string) {
+	if term != "false" {
+		if st.proved == nil {
+			st.proved = map[string]bool{}
+		}
+		if st.proved[term] {
+			return
+		}
+		st.proved[term] = true
+	}
 	id := len(st.checks)
 	st.checks = append(st.checks, Check{ID: id, Ob: ob, Note: note})
 	if term == "true" {
@@ -187,9 +205,19 @@ func (st *State) check(ob, term, note string) {
 
 // guard emits a satisfiability probe of the assumptions so far (vacuity guard).
 func (st *State) guard(ob, note string) {
+	if st.guards == nil {
+		st.guards = map[string]int{}
+	}
+	if *st.guardCount == nil {
+		*st.guardCount = map[string]int{}
+	}
+	if (*st.guardCount)[ob] >= 2 {
+		return
+	}
+	(*st.guardCount)[ob]++
 	id := len(st.checks)
 	st.checks = append(st.checks, Check{ID: id, Ob: ob, Note: note, Guard: true})
-	st.emit("(echo \"CHK %d\")\n(push 1)\n(check-sat)\n(pop 1)", id)
+	st.emit("(echo \"CHK %d\")\n(push 1)\n(set-option :timeout 700)\n(check-sat)\n(set-option :timeout @TMO@)\n(pop 1)", id)
 }
 
 // ---- heaps -----------------------------------------------------------------
